@@ -70,6 +70,21 @@ Theorem C04_connected_input_value :
 Proof. exact connected_input_value. Qed.
 Print Assumptions C04_connected_input_value.
 
+(* The same with array-valued ref / ref0 on the source (every source entry has its own scaling and
+   the input entry k is scaled with the factors of the source entry it reads, ref[src_indices]). *)
+Theorem C04_connected_input_value_array_scaling :
+  forall (src : list Q) (shape : list Z) (chain : list level) (P : list Z)
+         (a0s a1s : list Q) (factor offset : Q),
+    Z.of_nat (length src) = prodZ shape ->
+    chain_extents shape chain ->
+    om_positions shape chain = Some P ->
+    (forall p, In p P -> ~ (nth (Z.to_nat p) a1s 1 == 0)%Q) ->
+    exists vals s,
+      src_through_chain 0%Q src shape chain = Some (vals, s) /\
+      Forall2 Qeq (input_values_v a0s a1s factor offset src P) (map (convert factor offset) vals).
+Proof. exact connected_input_value_v. Qed.
+Print Assumptions C04_connected_input_value_array_scaling.
+
 (* The code before repair a7afb04 did not have this property. *)
 Theorem C04_old_positions_refuted :
   exists shape chain P,
